@@ -216,6 +216,11 @@ def apply(ctx, W):
                     definition.statements@, res->Ok_0->0.inner->Type_0.regions@, &final(semantic).type_registry)""", ("C01", "C03", "C20"), "build-placement"),
             ("""res is Ok && res->Ok_0 is Some ==> build_vftable_ok(&old(semantic).type_registry, module_scope(&module_of(old(semantic), *resolvee_path)->0),
                     definition.statements@, &final(semantic).type_registry, *resolvee_path, res->Ok_0->0.inner->Type_0.vftable, res->Ok_0->0.inner->Type_0.regions@)""", ("C06",), "build-vftable"),
+            ("""res is Ok && res->Ok_0 is Some ==> exists|target: Option<usize>| #![trigger attr_usize(definition.attributes.0@, "size"@, definition.attributes.0@.len() as int, target)]
+                    attr_usize(definition.attributes.0@, "size"@, definition.attributes.0@.len() as int, target)
+                    && build_regions_ok(&old(semantic).type_registry, module_scope(&module_of(old(semantic), *resolvee_path)->0),
+                        definition.statements@, target, &final(semantic).type_registry, *resolvee_path, res->Ok_0->0.inner->Type_0.vftable, res->Ok_0->0.inner->Type_0.regions@, res->Ok_0->0.size)""",
+             ("C01", "C17", "C20"), "build-regions-spec"),
             ("""res is Ok && res->Ok_0 is Some ==> ({
                 let td = res->Ok_0->0.inner->Type_0; let a = definition.attributes.0@; let n = a.len() as int;
                 &&& attr_usize(a, "singleton"@, n, td.singleton)
@@ -231,5 +236,8 @@ def apply(ctx, W):
         assert(placement_exists(pend, regions@, &semantic.type_registry));
         assert(vftable_of_first_base(&semantic.type_registry, *resolvee_path, pend, own0, vftable, regions@));
         assert(build_vftable_ok(&old(semantic).type_registry, module_scope(&module_of(old(semantic), *resolvee_path)->0), definition.statements@, &semantic.type_registry, *resolvee_path, vftable, regions@));
+        assert(resolve_regions_spec(&semantic.type_registry, *resolvee_path, pend, own0, target_size, vftable, regions@, size));
+        assert(build_regions_ok(&old(semantic).type_registry, module_scope(&module_of(old(semantic), *resolvee_path)->0), definition.statements@, target_size,
+                &semantic.type_registry, *resolvee_path, vftable, regions@, size));
         assert(declared_fields_placed(&old(semantic).type_registry, module_scope(&module_of(old(semantic), *resolvee_path)->0), definition.statements@, regions@, &semantic.type_registry));
     }""")
